@@ -409,7 +409,7 @@ pub fn run(args: &[String]) -> i32 {
     let trace_every: usize = arg(args, "--trace-every").and_then(|s| s.parse().ok()).unwrap_or(1);
     let trace_max_toks: usize = arg(args, "--trace-max-toks").and_then(|s| s.parse().ok()).unwrap_or(60);
     let policies: usize = arg(args, "--policies").and_then(|s| s.parse().ok()).unwrap_or(1);
-    let contents_path = arg(args, "--contents").unwrap_or("/verif/data/contents.json");
+    let contents_path = &arg(args, "--contents").map(|s| s.to_string()).unwrap_or_else(crate::util::contents_default);
     let seed = seed_from_env();
     let (mut contents, content_notes) = Contents::load(contents_path);
     let pool_size = arg(args, "--pool").map(|p| contents.load_pool(p)).unwrap_or(0);
